@@ -55,10 +55,10 @@ func (fv *FuncVerifier) libModel(st *State, full string, fn *types.Func, recv *V
 		return []Val{{T: r, Ty: boolT}}, true
 	case "bytes.Compare":
 		a := args()
-		fv.assumedLib(full + " (lexicographic three-way comparison: the sign of the difference of an order embedding of the contents into the reals; 0 iff equal)")
+		fv.assumedLib(full + " (lexicographic three-way comparison: decided by the total order rank.le on the ranks of the contents; 0 iff equal)")
 		r := fv.fresh("bcmp", "Int")
 		ra, rb := fv.rankTerm(st, a[0]), fv.rankTerm(st, a[1])
-		fv.assume(st, "(= "+r+" (ite (< "+ra+" "+rb+") (- 1) (ite (> "+ra+" "+rb+") 1 0)))")
+		fv.assume(st, "(= "+r+" (ite (not (rank.le "+rb+" "+ra+")) (- 1) (ite (not (rank.le "+ra+" "+rb+")) 1 0)))")
 		fv.assume(st, "(= (= "+r+" 0) "+fv.bytesEqualTerm(st, a[0], a[1])+")")
 		return []Val{{T: r, Ty: t}}, true
 	case "bytes.HasPrefix":
@@ -295,9 +295,9 @@ func itoa(i int) string {
 	return s
 }
 
-// rankTerm: the rank of a byte slice's contents under an order embedding of lexicographic byte order into the
-// reals (one exists: the order is countable). Antisymmetry, transitivity and totality of bytes.Compare are then
-// facts of arithmetic; equal contents have equal rank and vice versa (assumed where bytes.Equal/Compare run).
+// rankTerm: the rank of a byte slice's contents in lexicographic byte order, a value of the uninterpreted sort
+// Rank that is totally ordered by rank.le (reflexive, antisymmetric, transitive, total). bytes.Compare is decided
+// by rank.le; equal contents have equal rank and vice versa (assumed where bytes.Equal/Compare run).
 func (fv *FuncVerifier) rankTerm(st *State, a Val) string {
 	fv.eng.needBytesRank()
 	h := fv.eng.sc.sliceHeap(types.Typ[types.Uint8])
@@ -308,7 +308,12 @@ func (eng *Engine) needBytesRank() {
 	if _, ok := eng.ufuns["bytes.rank"]; ok {
 		return
 	}
-	eng.ufuns["bytes.rank"] = &UFun{Name: "bytes.rank", Args: []string{"(Array Int Int)", "Int", "Int"}, Ret: "Real"}
+	eng.ufuns["bytes.rank"] = &UFun{Name: "bytes.rank", Args: []string{"(Array Int Int)", "Int", "Int"}, Ret: "Rank"}
+	eng.ufuns["rank.le"] = &UFun{Name: "rank.le", Args: []string{"Rank", "Rank"}, Ret: "Bool"}
+	eng.axioms = append(eng.axioms,
+		"(forall ((a Rank) (b Rank)) (! (or (rank.le a b) (rank.le b a)) :pattern ((rank.le a b))))",
+		"(forall ((a Rank) (b Rank)) (! (=> (and (rank.le a b) (rank.le b a)) (= a b)) :pattern ((rank.le a b) (rank.le b a))))",
+		"(forall ((a Rank) (b Rank) (c Rank)) (! (=> (and (rank.le a b) (rank.le b c)) (rank.le a c)) :pattern ((rank.le a b) (rank.le b c))))")
 }
 
 // lockModel tracks a ghost lock state per syntactic lock path.
